@@ -81,22 +81,34 @@ func main() {
 			shortLen = 2 // quick tier: the full <=3 menu once per query language, <=2 on the other routes of that language
 		}
 		langSeen[s.Lang] = true
-		for _, q := range queryMenu(s.Lang, shortLen) {
+		menu := queryMenu(s.Lang, shortLen)
+		if s.Key == "loki_tail_http" && !thorough {
+			// every planned query keeps its poller alive until the next 1 s tick: the quick tier sends the
+			// representative and the in-process-pipeline queries only
+			menu = append(append([]string{}, langs["logql"].rep...), langs["logql"].internal...)
+		}
+		for _, q := range menu {
 			add(Case{Group: "G1", Route: s.Key, Query: q, Params: defaultParams(s), Fault: Fault{Shape: "1batch"}})
 		}
 	}
-	// G2: parameter product
+	// G2: parameter product (the largest group: dispatched last, so that an overloaded machine caps it, not the
+	// fault sweep)
+	var g2 []Case
 	for _, s := range specs {
 		if len(s.Params) == 0 {
 			continue
 		}
 		reps := langs[s.Lang].rep
 		if !thorough && len(reps) > 3 {
-			reps = reps[:3]
+			reps = []string{reps[0], reps[2]}
+		}
+		if thorough && len(reps) > 5 {
+			reps = reps[:5]
 		}
 		for _, q := range reps {
 			for _, pp := range product(s, thorough) {
-				add(Case{Group: "G2", Route: s.Key, Query: q, Params: pp, Fault: Fault{Shape: "1batch"}})
+				id++
+				g2 = append(g2, Case{ID: id, Group: "G2", Route: s.Key, Query: q, Params: pp, Fault: Fault{Shape: "1batch"}})
 			}
 		}
 	}
@@ -142,7 +154,9 @@ func main() {
 			add(Case{Group: "G3", Route: "loki_tail", Query: q, Fault: f})
 		}
 	}
+	t0 := time.Now()
 	results := p.runAll(cases)
+	r.Extra["phase1_wall_s"] = time.Since(t0).Seconds()
 
 	// G3 faults: for every base and every statement it sent, every fault kind at every interesting row
 	var faults []Case
@@ -170,11 +184,21 @@ func main() {
 			}
 		}
 	}
+	t0 = time.Now()
 	for k, v := range p.runAll(faults) {
 		results[k] = v
 	}
+	r.Extra["phase2_faults_wall_s"] = time.Since(t0).Seconds()
+	t0 = time.Now()
+	for k, v := range p.runAll(g2) {
+		results[k] = v
+	}
+	r.Extra["phase3_params_wall_s"] = time.Since(t0).Seconds()
+	t0 = time.Now()
+	cases = append(cases, g2...)
 	cases = append(cases, faults...)
 	p.confirmAll(cases, results)
+	r.Extra["confirm_wall_s"] = time.Since(t0).Seconds()
 
 	groups := map[string]int{}
 	routes := map[string]int{}
@@ -277,6 +301,7 @@ type suspect struct {
 	c     Case
 	class string
 	what  string
+	prev  *Case // the request the same worker process served just before (nil after a fresh start)
 }
 
 func newPool(r *ev.Run) *pool {
@@ -477,6 +502,7 @@ func (p *pool) runAll(cases []Case) map[int]*Result {
 		go func() {
 			defer wg.Done()
 			var w *worker
+			var prev *Case
 			defer func() { w.kill() }()
 			for {
 				if p.r.Expired() {
@@ -498,6 +524,7 @@ func (p *pool) runAll(cases []Case) map[int]*Result {
 					if w, err = p.spawn(); err != nil {
 						ev.Fatal("cannot start worker: %v", err)
 					}
+					prev = nil
 				}
 				res, died := p.one(w, c)
 				if died {
@@ -506,7 +533,9 @@ func (p *pool) runAll(cases []Case) map[int]*Result {
 					w = nil
 				}
 				p.note(c, res)
-				p.account(c, res)
+				p.account(c, res, prev)
+				cc := c
+				prev = &cc
 				rmu.Lock()
 				results[c.ID] = res
 				rmu.Unlock()
@@ -517,7 +546,7 @@ func (p *pool) runAll(cases []Case) map[int]*Result {
 	return results
 }
 
-func (p *pool) account(c Case, res *Result) {
+func (p *pool) account(c Case, res *Result, prev *Case) {
 	r := p.r
 	r.AddEval(1)
 	atomic.AddInt64(&r.TracesValidated, 1)
@@ -543,7 +572,7 @@ func (p *pool) account(c Case, res *Result) {
 		r.States++
 	}
 	if res.Class != "" {
-		p.suspects = append(p.suspects, suspect{c, res.Class, res.What})
+		p.suspects = append(p.suspects, suspect{c, res.Class, res.What, prev})
 	}
 	p.mu.Unlock()
 	if c.ID%97 == 0 || (c.Group == "G3" && c.Fault.Kind != "" && c.ID%41 == 0) {
@@ -582,6 +611,33 @@ func (p *pool) confirmAll(cases []Case, results map[int]*Result) {
 		}(j)
 	}
 	wg.Wait()
+	// a failure that does not reproduce alone may be the after-effect of the previous request of the same worker
+	// process (state left behind: a lock never released, a closed pool, ...): re-run the pair in fresh workers
+	pairVerdict := make([]bool, len(p.suspects))
+	pairs := 0
+	for _, j := range jobs {
+		if verdict[j.idx] == "reproduced" || j.s.prev == nil || pairs >= 24 {
+			continue
+		}
+		pairs++
+		wg.Add(1)
+		sem <- struct{}{}
+		go func(j job) {
+			defer wg.Done()
+			defer func() { <-sem }()
+			pairVerdict[j.idx] = p.confirmPair(*j.s.prev, j.s.c, j.s.class)
+		}(j)
+	}
+	wg.Wait()
+	for i, s := range p.suspects {
+		if pairVerdict[i] {
+			cls := "after_previous_request:" + s.class
+			p.classes[cls]++
+			p.r.Violate(cls, fmt.Sprintf("%s — only when the same process served this request just before: %s — then: %s", s.what, s.prev, s.c),
+				map[string]any{"sequence": []Case{*s.prev, s.c}})
+			verdict[i] = "pair"
+		}
+	}
 	for i, s := range p.suspects {
 		v := verdict[i]
 		if v == "reproduced" {
@@ -597,6 +653,9 @@ func (p *pool) confirmAll(cases []Case, results map[int]*Result) {
 			} else {
 				v = "flaky"
 			}
+		}
+		if v == "pair" {
+			continue
 		}
 		if v != "reproduced" {
 			p.r.Outcome("suspect_not_reproduced:" + s.class)
@@ -632,19 +691,62 @@ func (p *pool) confirm(c Case, class string) string {
 	return "reproduced"
 }
 
+// confirmPair runs prev then c in confirmRuns fresh workers; true when c fails with the class every time.
+func (p *pool) confirmPair(prev, c Case, class string) bool {
+	for i := 0; i < confirmRuns; i++ {
+		w, err := p.spawn()
+		if err != nil {
+			ev.Fatal("cannot start worker: %v", err)
+		}
+		prev.CensusMs, prev.ResponseMs = 0, 0
+		c.CensusMs, c.ResponseMs = 0, 0
+		_, died := p.one(w, prev)
+		if died {
+			w.kill()
+			return false
+		}
+		res, _ := p.one(w, c)
+		w.kill()
+		if res.Class != class {
+			return false
+		}
+	}
+	return true
+}
+
 func replay(r *ev.Run, p *pool) {
 	b, err := os.ReadFile(r.Replay)
 	if err != nil {
 		ev.Fatal("%v", err)
 	}
 	var doc struct {
-		Class  string `json:"class"`
-		Replay Case   `json:"replay"`
+		Class  string          `json:"class"`
+		Replay json.RawMessage `json:"replay"`
 	}
 	if err := json.Unmarshal(b, &doc); err != nil {
 		ev.Fatal("replay file: %v", err)
 	}
-	c := doc.Replay
+	var seq struct {
+		Sequence []Case `json:"sequence"`
+	}
+	if json.Unmarshal(doc.Replay, &seq) == nil && len(seq.Sequence) == 2 {
+		r.AddEval(2)
+		r.States, r.Transitions, r.TracesValidated = 2, 2, 2
+		r.Distinct("replay")
+		r.Distinct(seq.Sequence[1].String())
+		cls := strings.TrimPrefix(doc.Class, "after_previous_request:")
+		seq.Sequence[0].ID, seq.Sequence[1].ID = 1, 2
+		if p.confirmPair(seq.Sequence[0], seq.Sequence[1], cls) {
+			r.Violate("after_previous_request:"+cls, fmt.Sprintf("reproduced: %s — then: %s", seq.Sequence[0], seq.Sequence[1]), map[string]any{"sequence": seq.Sequence})
+		} else {
+			fmt.Println("replay: the sequence does not fail")
+		}
+		r.Finish()
+	}
+	var c Case
+	if err := json.Unmarshal(doc.Replay, &c); err != nil {
+		ev.Fatal("replay file: %v", err)
+	}
 	c.ID = 1
 	w, err := p.spawn()
 	if err != nil {
